@@ -16,6 +16,7 @@
     actions / changes   the `action` / `onChange` events of a log.
   Tie to the source: NV.Gen.Manager (constants, the two comparisons) is regenerated on every run.
 -/
+import NV.Model.RealEp
 import NV.Gen.PkgState
 import NV.Lemmas.Manager
 import NV.Gen.Manager
@@ -369,5 +370,55 @@ theorem gen_no_hidden_process_state :
     (Gen.PkgState.table.all fun r =>
       r.2.2.isEmpty || (r.1 == "resolver/endpoint" && (r.2.1 == "rootCAInit" || r.2.1 == "rootCAs"))) = true := by
   decide
+
+section RealEp
+open NV.RealEp
+
+/-- **C08 on the endpoint stack as the `realep` area sees it**: when some candidate serves, the election makes active a candidate
+that serves, and every candidate listed before it does not. -/
+theorem realep_election_first_healthy (eps down : List String) (e : String) (h : election eps down = some e)
+    (hex : ∃ x, x ∈ eps ∧ down.contains x = false) :
+    e ∈ eps ∧ down.contains e = false ∧
+    ∃ pre post, eps = pre ++ e :: post ∧ ∀ x, x ∈ pre → down.contains x = true := by
+  unfold election at h
+  cases hf : eps.find? (fun e => !down.contains e) with
+  | some y =>
+    rw [hf] at h
+    simp at h
+    subst h
+    have hm := List.mem_of_find?_eq_some hf
+    have hp := List.find?_some hf
+    refine ⟨hm, by simpa using hp, ?_⟩
+    obtain ⟨pre, post, he, hpre⟩ := List.find?_eq_some_iff_append.mp hf |>.2
+    exact ⟨pre, post, he, fun x hx => by simpa using hpre x hx⟩
+  | none =>
+    exfalso
+    obtain ⟨x, hx, hd⟩ := hex
+    have := List.find?_eq_none.mp hf x hx
+    simp at this
+    have hc : down.contains x = true := by simpa using this
+    rw [hd] at hc; cases hc
+
+/-- … and when none serves, the first candidate (the fallback). -/
+theorem realep_election_fallback (eps down : List String) (hall : ∀ x, x ∈ eps → down.contains x = true) :
+    election eps down = eps.head? := by
+  unfold election
+  have : eps.find? (fun e => !down.contains e) = none := by
+    apply List.find?_eq_none.mpr
+    intro x hx
+    have := hall x hx
+    simpa using this
+  rw [this]
+
+/-- an endpoint with a path of its own receives every request on that path, whatever the profile (C10: the forwarder's upstream;
+C11: a custom endpoint) -/
+theorem realep_path_own (ep prof prof' : String) (h : ep ≠ "-") : pathOf ep prof = pathOf ep prof' ∧ pathOf ep prof = "/" ++ ep := by
+  simp [pathOf, h]
+
+/-- an endpoint without a path receives the request on the path of the chosen profile (C11) -/
+theorem realep_path_profile (prof : String) (h : prof ≠ "-") : pathOf "-" prof = "/" ++ prof := by
+  simp [pathOf, h]
+
+end RealEp
 
 end NV.C08
